@@ -18,6 +18,10 @@ pub fn factory(sources: Vec<MemSource>, dir: &Path) -> PipelineFactory {
 			if let Some(i) = last.strip_prefix("mem:") {
 				let i: usize = i.parse()?;
 				let s = sources.get(i).ok_or_else(|| anyhow::anyhow!("no mem source {i}"))?;
+				// a source that answers late also opens late (like a remote container)
+				for _ in 0..s.yields {
+					tokio::task::yield_now().await;
+				}
 				Ok(Box::new(s.clone()) as Box<dyn TilesReaderTrait>)
 			} else {
 				versatiles_container::get_reader(&filename).await
